@@ -42,7 +42,7 @@ MEAN = {
 from . import special as _sp
 
 PROPS = {
-    'C01': dict(streams=[('single-item', 200, 3000)]),
+    'C01': dict(streams=[('single-item', 200, 3000), ('failing', 60, 1000)]),
     'C02': dict(streams=[('query', 200, 3000), ('page', 40, 1000)]),
     'C03': dict(streams=[('index', 200, 3000), ('page', 40, 1000)]),
     'C04': dict(streams=[('page', 150, 2000)]),
